@@ -51,10 +51,12 @@ func runC04(c *Ctx) error {
 	// a message that never ends: every fragment within the limit, the sum far above it
 	for _, server := range []bool{true, false} {
 		for _, limit := range []int{300, 4096} {
-			for vi, stream := range unfinishedOversize(server, limit) {
-				spec := connSpec{Server: server, PMD: vi%2 == 0, RLimit: limit}
-				if err := run(spec, stream, fmt.Sprintf("unfinished server=%v limit=%d variant=%d", server, limit, vi)); err != nil {
-					return err
+			for _, rsv1 := range []bool{false, true} {
+				for vi, stream := range unfinishedOversize(server, limit, rsv1) {
+					spec := connSpec{Server: server, PMD: rsv1 || vi%2 == 0, RLimit: limit}
+					if err := run(spec, stream, fmt.Sprintf("unfinished server=%v limit=%d variant=%d compressed=%v", server, limit, vi, rsv1)); err != nil {
+						return err
+					}
 				}
 			}
 		}
